@@ -520,4 +520,14 @@ def Node.isDecl : Node → Bool
 def UniqueSvcFn (p : Program) : Prop :=
   ∀ f, ((p.file f).services.map (·.name)).Nodup ∧ ∀ svc ∈ (p.file f).services, (svc.fns.map (·.name)).Nodup
 
+/-- struct-like names are unique per kind and file (CheckGlobals) -/
+def UniqueSL (p : Program) : Prop := ∀ f k, (((p.file f).sl k).map (·.name)).Nodup
+
+/-- a marked service is complete: every function is marked and, if it extends a service of an
+included file, that include and that base service are marked -/
+def SvcOK (p : Program) (M : Marks) (f : Nat) (svc : Service) : Prop :=
+  (∀ fn ∈ svc.fns, Node.fn f svc.name fn.name ∈ M) ∧
+  (svc.ext ≠ [] → ∀ rn i g, svc.ref = some (rn, i) → p.incTarget f i = some g →
+    Node.inc f i ∈ M ∧ ∀ b, findSvc p g rn = some b → Node.svc g b.name ∈ M)
+
 end Trim
